@@ -45,6 +45,9 @@ func genCase(t *rapid.T, withInvalid bool) *Case {
 		}
 	}
 	c.UserOpts = rapid.SampledFrom([]int{0, 0, 0, 0, 1, 2, 3, 4}).Draw(t, "userOpts")
+	if hx.Verbose() && rapid.IntRange(0, 11).Draw(t, "stale") == 0 {
+		c.Stale = rapid.IntRange(1, 4).Draw(t, "staleWhich")
+	}
 	c.NoDialFunc = rapid.IntRange(0, 9).Draw(t, "noDialFunc") == 0
 	c.LateAppend = rapid.IntRange(0, 4).Draw(t, "lateAppend") == 0
 	if rapid.IntRange(0, 5).Draw(t, "extClose") == 0 {
@@ -56,7 +59,7 @@ func genCase(t *rapid.T, withInvalid bool) *Case {
 		}
 	}
 	if withInvalid && rapid.IntRange(0, 3).Draw(t, "badinit") == 0 {
-		c.BadInit = rapid.SampledFrom([]string{"nodefault", "empty-new", "nil-options", "dialfail", "dialfail-first"}).Draw(t, "badinitkind")
+		c.BadInit = rapid.SampledFrom([]string{"nodefault", "empty-new", "nil-options", "nil-pointer", "dialfail", "dialfail-first"}).Draw(t, "badinitkind")
 	}
 	if rapid.IntRange(0, 5).Draw(t, "delayedTargetRemoved") == 0 {
 		// steer: a delayed switch to a better endpoint is pending when an update removes that endpoint
@@ -87,7 +90,7 @@ func genCase(t *rapid.T, withInvalid bool) *Case {
 			}
 			return op
 		case "bad":
-			return Op{K: k, Opts: genOptions(t), Bad: rapid.SampledFrom([]string{"nodefault", "empty-existing", "empty-new", "nil-options", "dialfail", "dialfail"}).Draw(t, "bad"), Nth: rapid.IntRange(0, 3).Draw(t, "nth")}
+			return Op{K: k, Opts: genOptions(t), Bad: rapid.SampledFrom([]string{"nodefault", "empty-existing", "empty-new", "nil-options", "nil-pointer", "dialfail", "dialfail"}).Draw(t, "bad"), Nth: rapid.IntRange(0, 3).Draw(t, "nth")}
 		case "rpc":
 			return Op{K: k, Ctx: rapid.IntRange(0, 4).Draw(t, "ctx"), Strm: rapid.Bool().Draw(t, "stream")}
 		default:
